@@ -171,7 +171,12 @@ func (w *world) monitor(o op, cls Class, before, after *snap, en, al []bool, blo
 	case "c2e":
 		c := enabledPairOfDenom(en, o.D)
 		if c < 0 {
-			return bad("disabled-conversion-refused", "disabled-conversion-accepted", "ConvertCoinToERC20 of "+denoms[o.D])
+			sig := "disabled-conversion-accepted"
+			if o.D >= firstLook {
+				sig = "lookalike-denom-conversion-accepted"
+			}
+			return bad("conversion-of-a-denom-that-is-not-exactly-an-enabled-pair-denom-refused", sig,
+				fmt.Sprintf("ConvertCoinToERC20 of %q succeeded (enabled pairs: %v)", denoms[o.D], en))
 		}
 		if x.Sign() < 0 || (!o.Direct && x.Sign() == 0) {
 			return bad("non-positive-amount-refused", "non-positive-amount-accepted", o.X)
@@ -235,7 +240,11 @@ func (w *world) monitor(o op, cls Class, before, after *snap, en, al []bool, blo
 		}
 	case "cos2e":
 		if !al[o.D] {
-			return bad("disabled-conversion-refused", "not-allowed-denom-accepted", "ConvertCosmosCoinToERC20 of "+denoms[o.D])
+			sig := "not-allowed-denom-accepted"
+			if o.D >= firstLook {
+				sig = "lookalike-denom-conversion-accepted"
+			}
+			return bad("disabled-conversion-refused", sig, fmt.Sprintf("ConvertCosmosCoinToERC20 of %q succeeded", denoms[o.D]))
 		}
 		if x.Sign() < 0 || (!o.Direct && x.Sign() == 0) {
 			return bad("non-positive-amount-refused", "non-positive-amount-accepted", o.X)
@@ -607,6 +616,9 @@ func splits(o op, cls Class, err error, before, after *snap, en, al []bool, bloc
 	switch o.Kind {
 	case "c2e":
 		c := enabledPairOfDenom(en, o.D)
+		if o.D >= firstLook && !ok {
+			mark("c2e:lookalike-denom-refused")
+		}
 		switch {
 		case c < 0:
 			mark("c2e:disabled-refused")
@@ -648,6 +660,9 @@ func splits(o op, cls Class, err error, before, after *snap, en, al []bool, bloc
 			mark("amount:exact-balance-ok")
 		}
 	case "cos2e":
+		if o.D >= firstLook && !ok {
+			mark("cos2e:lookalike-denom-refused")
+		}
 		switch {
 		case !al[o.D]:
 			mark("cos2e:not-allowed-refused")
@@ -666,6 +681,9 @@ func splits(o op, cls Class, err error, before, after *snap, en, al []bool, bloc
 		}
 	case "e2cos":
 		c := before.reg[o.D]
+		if o.D >= firstLook && !ok {
+			mark("e2cos:lookalike-denom-refused")
+		}
 		switch {
 		case c < 0:
 			mark("e2cos:unregistered-refused")
@@ -714,6 +732,7 @@ var allSplits = []string{
 	"send:blocked-recipient-refused", "params",
 	"amount:exact-balance-ok", "amount:zero-direct-ok",
 	"roundtrip:cos2e", "roundtrip:e2cos", "roundtrip:c2e", "roundtrip:e2c",
+	"c2e:lookalike-denom-refused", "cos2e:lookalike-denom-refused", "e2cos:lookalike-denom-refused",
 }
 
 func run(o Opts) (*Result, error) {
